@@ -264,12 +264,12 @@ def step (st : St) (toks : List String) : St × String :=
       (st, if out.isEmpty then "-" else String.intercalate ";" (out.map showBC))
     | _, _ => (st, "bad-op")
   | "oracle" :: "exec" :: rest =>
-    match parseCtx ((kv? "ctx" rest).getD "-") with
-    | some ctx =>
+    match parseCtx ((kv? "ctx" rest).getD "-"), parseReads ((kv? "reads" rest).getD "-") with
+    | some ctx, some reads =>
       match parseObs ctx ((kv? "got" rest).getD "-") with
-      | some obs => if execExact st.hook obs then (st, "true") else (st, "false")
+      | some obs => if execExact st.hook reads obs then (st, "true") else (st, "false")
       | none => (st, "bad-op")
-    | none => (st, "bad-op")
+    | _, _ => (st, "bad-op")
   | _ => (st, "bad-op")
 
 def suite : Suite St := { init := {}, step := step }
